@@ -1,6 +1,7 @@
 """Self-tests of the simulator itself (DESIGN.md section 9).
 
   selftest sensitivity [ID|name…]   every seeded change under seeded/ must make the recorded checks report a VIOLATION
+  selftest specificity [ID|name…]   every property-preserving change under benign/ must leave the recorded checks quiet
   selftest determinism <PROP> [n]   event-log digests must not depend on: repetition in one interpreter,
                                     position in the process (first vs after other runs), interpreter
                                     instance, number of workers / block layout; and verdicts must not
@@ -106,7 +107,49 @@ def sensitivity(only=None):
     return ok
 
 
+def specificity(only=None):
+    """Apply every property-preserving change under benign/<id>/patch.diff (legitimate refactorings and legal behaviour changes
+    written by sub-agents that saw only the property text) to a scratch worktree and require every recorded check to stay quiet."""
+    import glob
+    import subprocess
+    import tempfile
+    root = M.ROOT
+    scratch = tempfile.mkdtemp(prefix='verif-spec-')
+    wt = os.path.join(scratch, 'repo')
+    subprocess.check_call(['git', '-C', '/repo', 'worktree', 'add', '-q', '--detach', wt, 'HEAD'])
+    ok = True
+    try:
+        for meta_path in sorted(glob.glob(os.path.join(root, 'benign', '*', 'meta.json'))):
+            meta = json.load(open(meta_path))
+            name = os.path.basename(os.path.dirname(meta_path))
+            if only and name not in only and meta['property'] not in only:
+                continue
+            if not meta.get('accepted', True):
+                print('specificity %s: skipped (%s)' % (name, meta.get('verdict', 'not accepted as property-preserving')))
+                continue
+            subprocess.check_call(['git', '-C', wt, 'checkout', '-q', '--', '.'])
+            subprocess.check_call(['git', '-C', wt, 'clean', '-qfd'])
+            ap = subprocess.run(['git', '-C', wt, 'apply', os.path.join(os.path.dirname(meta_path), 'patch.diff')])
+            if ap.returncode != 0:
+                print('specificity %s: patch no longer applies to /repo HEAD' % name)
+                continue
+            for cid in meta['checks']:
+                env = dict(os.environ, VERIF_REPO=wt, VERIF_MAX_MINIMISE='1')
+                r = subprocess.run([os.path.join(root, 'check'), cid, 'quick'], env=env, stdout=subprocess.PIPE, stderr=subprocess.STDOUT)
+                quiet = r.returncode == 0 and b'VIOLATION property=' not in r.stdout
+                print('specificity %s vs %s: %s' % (name, cid, 'quiet' if quiet else 'ALARM (exit %d)' % r.returncode))
+                ok = ok and quiet
+    finally:
+        subprocess.call(['git', '-C', '/repo', 'worktree', 'remove', '--force', wt])
+        import shutil
+        shutil.rmtree(scratch, ignore_errors=True)
+    print('specificity: %s' % ('OK' if ok else 'FAILED'))
+    return ok
+
+
 def main(argv):
+    if argv and argv[0] == 'specificity':
+        return 0 if specificity(set(a for a in argv[1:]) or None) else 2
     if argv and argv[0] == 'sensitivity':
         return 0 if sensitivity(set(a for a in argv[1:]) or None) else 2
     if not argv or argv[0] != 'determinism':
